@@ -165,5 +165,5 @@ def run_inst(spec, run):
         run.sample({"model": pl.show(model_spec), "assumed": spec["assumed"], "path_condition": [str(z3.simplify(c)) for c in ctx.pc][:6],
                     "reduced": repr(red)[:200]})
 
-    st = S.explore(fn, on_path, max_paths=8000, wall=900)
+    st = S.explore(fn, on_path, max_paths=30000, wall=2400)
     return run.result(st)
